@@ -36,6 +36,9 @@
 (*                  utility records <<m, $?>> and exits with n             *)
 (*    exec missing / noexec / none                                         *)
 (*    return [n], exit [n], break n, continue n                            *)
+(*    fail c        one command that fails with an error of category c of   *)
+(*                  XCU 2.8.1 "Consequences of Shell Errors" (see ErrCats;   *)
+(*                  the nested-errors stage of property C10)                 *)
 (*    trap a        `trap 'probe m[; exit a]' EXIT` or, for the operand-less *)
 (*                  exit, `trap 'probe m; ! :; exit' EXIT` (the `! :`      *)
 (*                  makes $? inside the action differ from the $? before)  *)
@@ -62,7 +65,7 @@ CONSTANTS Fuel,        \* bound on loop iterations + function calls + dot script
 Tok(k, n, s) == [k |-> k, n |-> n, s |-> s]
 
 LeafKinds == {"mk", "P", "Q", "setpp", "sete", "tick", "cmd", "brk", "cnt", "ret", "exit", "trap",
-              "evalnil", "evalsyn", "dotnil", "dotmiss", "dotsyn", "exec"}
+              "evalnil", "evalsyn", "dotnil", "dotmiss", "dotsyn", "exec", "fail"}
 
 SlotsOf(k) ==
   CASE k \in LeafKinds -> <<>>
@@ -157,6 +160,36 @@ NewErr(S) == [S EXCEPT !.st = -(10 + S.en), !.en = @ + 1]
 ShellError(S) == [NewErr(S) EXCEPT !.dv = "exit", !.xw = "error"]
 
 Record(S, m) == [S EXCEPT !.tr = Append(@, <<m, S.st>>)]
+
+(***************************************************************************)
+(* Categories of failing commands (leaf `fail c`), XCU 2.8.1 "Consequences *)
+(* of Shell Errors" (non-interactive shell) and docs/src/termination.md    *)
+(* "Shell errors":                                                         *)
+(*   "sp"    special built-in utility error                 shall exit     *)
+(*   "spr"   redirection error with a special built-in      shall exit     *)
+(*   "asg"   variable assignment error, no command name     shall exit     *)
+(*   "asgc"  variable assignment error, with a command name shall exit     *)
+(*   "exp"   expansion error                                shall exit     *)
+(*   "reg"   other utility (not a special built-in) error   shall not exit *)
+(*   "cmdsp" special built-in error, the utility executed                  *)
+(*           through `command` ("the shell shall not exit") shall not exit *)
+(*   "regr"  redirection error with other utilities         shall not exit *)
+(*   "cmpr"  redirection error with a compound command      shall not exit *)
+(* "shall exit" ends the current execution environment (2.8.1: "from a     *)
+(* subshell environment ... the shell shall exit from the subshell         *)
+(* environment"; termination.md "Exiting subshells") with a non-zero       *)
+(* status, whatever executes the command: the operand of eval, a dot       *)
+(* script, a function, the condition of an if.  "shall not exit": the      *)
+(* command is not performed (redirection errors) or has failed, $? is      *)
+(* non-zero and the failure is that of an ordinary command: -e applies     *)
+(* unless it is being ignored (termination.md: "The shell exits if         *)
+(* `errexit` is set. Otherwise, it continues with the next command.").     *)
+(* The statuses are only bounded (> 0): symbolic.  The command itself      *)
+(* records nothing.                                                        *)
+(***************************************************************************)
+ExitCats == {"sp", "spr", "asg", "asgc", "exp"}
+SoftCats == {"reg", "cmdsp", "regr", "cmpr"}
+ErrCats == ExitCats \cup SoftCats
 
 (***************************************************************************)
 (* EXIT trap (XCU 2.15 trap, exit; termination.md "EXIT trap"; exit.md).   *)
@@ -278,6 +311,12 @@ Simple(t, S, C) ==
             [] t.s = "missing" -> Tag([S EXCEPT !.st = 127, !.dv = "exit", !.xw = "execfail"], "exec127@" \o C.in)
             [] t.s = "noexec" -> Tag([S EXCEPT !.st = 126, !.dv = "exit", !.xw = "execfail"], "exec126@" \o C.in)
             [] OTHER -> [S EXCEPT !.st = 0])
+    \* XCU 2.8.1 (see ErrCats above): the consequence is decided by the
+    \* category of the failing command alone.
+    [] t.k = "fail" ->
+         IF t.s \in ExitCats THEN Tag(ShellError(S), "fail:" \o t.s \o "@" \o C.in)
+         ELSE LET S1 == Tag(NewErr(S), "fail:" \o t.s \o "@" \o C.in)
+              IN Errexit(IF S.e = 1 /\ C.ig THEN Tag(S1, "fail-soft-exempt") ELSE S1, C)
 
 LeaveLoop(S) == IF S.dn = 1 THEN [S EXCEPT !.dv = "none", !.dn = 0] ELSE [S EXCEPT !.dn = @ - 1]
 
